@@ -499,7 +499,7 @@ def all_jobs():
 # builtins under the generic contract (name, class, number of arguments); see tools/try_builtins.sh for how the list was grown
 # compiled type of the builtins whose type() is a constant (blocc/builtin/builtin_<name>.h / .cpp): checked as C02
 BUILTIN_FIXED_TYPE = dict(atan2='NUMERIC',
-                          imag='NUMERIC', iphase='NUMERIC', iconj='IMAGINARY', bool='BOOLEAN', isnull='BOOLEAN', strlen='INTEGER', strpos='INTEGER', typeof='LITERAL', int='INTEGER', num='NUMERIC', isnum='BOOLEAN', getenv='LITERAL', lower='LITERAL', upper='LITERAL',
+                          imag='NUMERIC', iphase='NUMERIC', iconj='IMAGINARY', bool='BOOLEAN', isnull='BOOLEAN', strlen='INTEGER', strpos='INTEGER', typeof='LITERAL', str='LITERAL', b64enc='LITERAL', b64dec='TABCHAR', int='INTEGER', num='NUMERIC', isnum='BOOLEAN', getenv='LITERAL', lower='LITERAL', upper='LITERAL',
                           lsubstr='LITERAL', rsubstr='LITERAL', substr='LITERAL', trim='LITERAL', ltrim='LITERAL', rtrim='LITERAL', hex='LITERAL', subraw='TABCHAR', raw='TABCHAR')
 # builtins whose type() is complex for a complex first argument and decimal otherwise
 BUILTIN_FOLLOWS_COMPLEX = {'cos', 'exp', 'log', 'sin', 'sqrt', 'tan', 'ceil', 'floor', 'round', 'acos', 'asin', 'atan', 'cosh', 'sinh', 'tanh', 'log10'}
@@ -516,6 +516,8 @@ BUILTINS_GENERIC = [
     ('typeof', 'TYPEOFExpression', 1), ('lower', 'LOWERExpression', 1), ('upper', 'UPPERExpression', 1), ('lsubstr', 'LSUBSTRExpression', 2), ('rsubstr', 'RSUBSTRExpression', 2),
     ('substr', 'SUBSTRExpression', 3), ('strpos', 'STRPOSExpression', 3), ('subraw', 'SUBRAWExpression', 3), ('raw', 'RAWExpression', 2),
     ('num', 'NUMExpression', 1, 8, 'std::stod on a string of at most 2 characters (operand bound)', 2), ('isnum', 'ISNUMExpression', 1, 8, 'character loop over a string of at most 2 characters (operand bound)', 2), ('getenv', 'GETENVExpression', 1),
+    ('str', 'STRExpression', 1),
+    ('b64enc', 'B64ENCExpression', 1, 8, 'string / bytes operand of at most 2 characters (operand bound)', 2), ('b64dec', 'B64DECExpression', 1, 8, 'string / bytes operand of at most 2 characters (operand bound)', 2),
     ('int', 'INTExpression', 1, 8, 'sign / blank skipping loop over a string of at most 2 characters (operand bound)', 2),
     ('trim', 'TRIMExpression', 1, 8, 'character loops over a string of at most 2 characters (operand bound)', 2),
     ('ltrim', 'LTRIMExpression', 1, 8, 'character loops over a string of at most 2 characters (operand bound)', 2),
